@@ -154,7 +154,7 @@ def _gen_point(rng, sizes, clip, pclass):
 def gen_descs(ctx):
   rng = ctx.rng
   out = []
-  for _ in range(ctx.n(320, 20000)):
+  for _ in range(ctx.n(500, 20000)):
     sclass, sizes = _gen_sizes(rng)
     rank = len(sizes)
     units = rng.choice([1, 1, 2, 3])
